@@ -129,13 +129,13 @@ class MeetingHandler(object):
 
     def __call__(self, uri):
         self.calls += 1
-        if self.fails:
-            raise IOError("this member's own source for %s is down" % uri)
         if self.meet is not None:
             try:
                 self.meet.wait()
             except threading.BrokenBarrierError:
                 pass
+        if self.fails:
+            raise IOError("this member's own source for %s is down" % uri)
         return copy.deepcopy(self.docs[uri])
 
 
